@@ -18,7 +18,7 @@ DESCRIPTIONS = {
         'projection-arguments-evaluated-at-call-time':
             'The fixed arguments of a projection are kept as expressions and evaluated when the last hole is filled (and again '
             'on every call): g::f(a;);a::2;g(5) uses a=2, a fixed argument with a side effect runs on every call, and a '
-            'function that returns a projection of its own parameter ({f(x;)}) cannot be called. By substitution the '
+            'function that returns a projection of its own parameter ({f(x;)}; also in function position: {x(10;)}(sub)@3) cannot be called. By substitution the '
             'projection stands for the body with the value the argument had when it was supplied. Repair not small: '
             'stored arguments are syntax (the interpreter evaluates every argument at the final call and has no way to '
             'mark an argument as already evaluated - see also the C09 finding about values that are resolved again).',
